@@ -12,6 +12,7 @@ mod sim_a;
 mod sim_b;
 mod sim_c;
 mod sim_client;
+mod sim_d1;
 mod sim_e;
 mod sim_f;
 mod world;
@@ -36,11 +37,30 @@ fn dispatch_run(prop: &str, opts: &Opts) -> i32 {
         "C07" => kit::run_batch(&sim_c::SimC7, opts).exit_code,
         "C04" => kit::run_batch(&sim_c::SimC4, opts).exit_code,
         "C08" => kit::run_batch(&sim_e::SimE, opts).exit_code,
+        "C12" => kit::run_batch(&sim_d1::SimD1, opts).exit_code,
         other => {
             eprintln!("HARNESS-ERROR: no simulator registered for property {other}");
             2
         }
     }
+}
+
+fn dispatch_plan(prop: &str, seed: u64, i: u64) -> i32 {
+    match prop {
+        "C01" => kit::print_plan(&sim_a::SimA { prop: sim_a::PropA::C01 }, seed, i),
+        "C09" => kit::print_plan(&sim_a::SimA { prop: sim_a::PropA::C09 }, seed, i),
+        "C03" => kit::print_plan(&sim_b::SimB { prop: sim_b::PropB::C03 }, seed, i),
+        "C14" => kit::print_plan(&sim_b::SimB { prop: sim_b::PropB::C14 }, seed, i),
+        "C15" => kit::print_plan(&sim_b::SimB { prop: sim_b::PropB::C15 }, seed, i),
+        "C19" => kit::print_plan(&sim_b::SimB { prop: sim_b::PropB::C19 }, seed, i),
+        "C10" => kit::print_plan(&sim_f::SimF, seed, i),
+        "C07" => kit::print_plan(&sim_c::SimC7, seed, i),
+        "C04" => kit::print_plan(&sim_c::SimC4, seed, i),
+        "C08" => kit::print_plan(&sim_e::SimE, seed, i),
+        "C12" => kit::print_plan(&sim_d1::SimD1, seed, i),
+        _ => return 2,
+    }
+    0
 }
 
 fn dispatch_replay(file: &serde_json::Value, verif_dir: &str) -> i32 {
@@ -56,6 +76,7 @@ fn dispatch_replay(file: &serde_json::Value, verif_dir: &str) -> i32 {
         "C07" => kit::replay(&sim_c::SimC7, file, verif_dir),
         "C04" => kit::replay(&sim_c::SimC4, file, verif_dir),
         "C08" => kit::replay(&sim_e::SimE, file, verif_dir),
+        "C12" => kit::replay(&sim_d1::SimD1, file, verif_dir),
         other => {
             eprintln!("HARNESS-ERROR: no simulator registered for property {other}");
             2
@@ -106,6 +127,12 @@ fn main() {
                 write_evidence: !args.iter().any(|a| a == "--no-evidence"),
             };
             dispatch_run(prop, &opts)
+        }
+        Some("plan") => {
+            let prop = args.get(2).cloned().unwrap_or_default();
+            let seed = arg_val(&args, "--seed").and_then(|s| s.parse().ok()).unwrap_or(kit::DEFAULT_SEED);
+            let i = arg_val(&args, "--index").and_then(|s| s.parse().ok()).unwrap_or(0);
+            dispatch_plan(&prop, seed, i)
         }
         Some("replay") => {
             let Some(path) = args.get(2) else {
